@@ -66,7 +66,7 @@ pub fn cfg_event(sc: &Scenario, t: u64) -> Value {
         "trace_id":sc.trace_id,"max_rounds":sc.max_rounds,"min_round":sc.min_round_us,
         "max_round":sc.max_round_us,"grace":sc.grace_us,"read_timeout":(sc.read_timeout_us/1000)*1000,
         "max_samples":sc.max_samples,"max_flows":sc.max_flows,"dist":dist0,"stable":stable,
-        "npaths":sc.topo.paths.len(),"eps":2,"seed":sc.seed.to_string(),
+        "npaths":sc.topo.paths.len(),"eps":sim::ZERO_TIMEOUT_COST_US + 1,"seed":sc.seed.to_string(),
         "fatal_fault": sc.faults.iter().any(|f| f.kind == "other" || f.kind == "perm"),
         "dublin6": sc.strat == "dublin" && sc.fam == 6})
 }
